@@ -18,7 +18,14 @@ if [ ! -d "$ISO/vc" ]; then
   sed -i "s#=> /repo#=> $ISO/repo#" "$ISO/vc/harness/go.mod"
 fi
 R="$ISO/repo"
-( cd "$R" && git checkout -q -- . && git clean -fdq )
+( cd "$R" && git checkout -q -- . && git clean -fdq && git checkout -q --detach "$(git -C /repo rev-parse HEAD)" )
+vh=$(git -C /verif rev-parse HEAD)
+if [ "$(cat "$ISO/vc.head" 2>/dev/null)" != "$vh" ]; then
+  rm -rf "$ISO/vc"; mkdir -p "$ISO/vc"
+  git -C /verif archive HEAD | tar -x -C "$ISO/vc"
+  sed -i "s#=> /repo#=> $ISO/repo#" "$ISO/vc/harness/go.mod"
+  echo "$vh" > "$ISO/vc.head"
+fi
 DEMO=$(ls $SRC/${X}_demo*.go 2>/dev/null | head -1)
 [ -n "$DEMO" ] || { echo "no demo"; exit 2; }
 pkg=$(grep -m1 '^package ' "$DEMO" | awk '{print $2}')
